@@ -59,15 +59,16 @@ Theorem cut_straight_count_distinct argsort n D0 D nc sort ret labels od :
 Proof. exact (CutsProofs.cut_straight_count_distinct argsort n D0 D nc sort ret labels od). Qed.
 Print Assumptions cut_straight_count_distinct.
 
-(** ... and what the code guarantees in general: with cut = max(sorted heights [n - n_clusters], threshold),
-    exactly the merges STRICTLY below the cut are applied: their leaves share one label, and the number of
+(** ... and what the code guarantees in general: with cut = max(sorted heights [n - n_clusters], threshold)
+    (+infinity, written [None], for n_clusters = 1), exactly the merges STRICTLY below the cut
+    ([below_cut cut r = true], i.e. height < cut) are applied: their leaves share one label, and the number of
     clusters is n minus the number of such merges. *)
 Theorem cut_straight_applies_merges_below_cut argsort n D0 D nc th sort ret labels od cut :
   cut_input D0 ret = Ok D -> valid n D = true -> hmono n D = true -> argsort_ok argsort ->
   cut_height D nc th = Ok cut ->
   cut_straight argsort D0 nc th sort ret = Ok (labels, od) ->
   num_clusters labels + below cut D = n /\
-  (forall t r, nth_error D t = Some r -> (r_height r < cut)%Q ->
+  (forall t r, nth_error D t = Some r -> below_cut cut r = true ->
      forall u v, In u (leaves n D (n + t)) -> In v (leaves n D (n + t)) -> nth u labels 0 = nth v labels 0).
 Proof. exact (cut_straight_exact argsort n D0 D nc th sort ret labels od cut). Qed.
 Print Assumptions cut_straight_applies_merges_below_cut.
@@ -80,25 +81,41 @@ Theorem cut_straight_threshold_applied argsort n D0 D nc theta sort ret labels o
 Proof. exact (cut_straight_threshold argsort n D0 D nc theta sort ret labels od). Qed.
 Print Assumptions cut_straight_threshold_applied.
 
-(** Admissible calls return a labelling — with n_clusters = 1 excluded by hypothesis (defect D6) ... *)
+(** Every admissible call returns a labelling, n_clusters = 1 included (repaired by 130034d8). *)
 Theorem cut_straight_returns argsort n D nc th sort :
   valid n D = true -> 2 <= n ->
-  match nc with Some k => 2 <= k <= n | None => True end ->
+  match nc with Some k => 1 <= k <= n | None => True end ->
   exists labels, cut_straight argsort D nc th sort false = Ok (labels, None).
 Proof. exact (cut_straight_total argsort n D nc th sort). Qed.
 Print Assumptions cut_straight_returns.
 
-(** ... because the current code raises IndexError for n_clusters = 1 on EVERY dendrogram
+(** Legacy (defect D6, code before 130034d8): n_clusters = 1 raised IndexError on EVERY dendrogram
     ([np.sort(heights)[n - 1]] on an array of n - 1 entries), although one cluster is admissible. *)
-Theorem cut_straight_one_cluster_refuted :
-  (forall argsort D th sort, cut_straight argsort D (Some 1) th sort false = Err IndexError) /\
+Theorem legacy_cut_straight_one_cluster_refuted :
+  (forall argsort D th sort, legacy_cut_straight argsort D (Some 1) th sort false = Err IndexError) /\
   exists D, valid 3 D = true /\ check_n_clusters 1 3 = Ok tt /\
-            cut_straight stable_argsort D (Some 1) None true false = Err IndexError.
+            legacy_cut_straight stable_argsort D (Some 1) None true false = Err IndexError /\
+            cut_straight stable_argsort D (Some 1) None true false = Ok ([0; 0; 0], None).
 Proof.
-  split; [exact cut_straight_one_cluster_fails|].
+  split; [exact legacy_cut_straight_one_cluster_fails|].
   exists [(0, 1, 1%Q, 2); (3, 2, 2%Q, 3)]. vm_compute. auto.
 Qed.
-Print Assumptions cut_straight_one_cluster_refuted.
+Print Assumptions legacy_cut_straight_one_cluster_refuted.
+
+(** Legacy (defect D7, code before 130034d8): aggregate_dendrogram(return_counts=True) read the count of an
+    original leaf through a wrapped negative row index (wrong counts, or IndexError when leaf 0 is kept), and
+    returned no count at all for a single cluster; the repaired code returns the sizes of the kept subtrees. *)
+Theorem legacy_aggregate_counts_refuted :
+  let D := [(0, 1, 1%Q, 2); (3, 2, 2%Q, 3)] in
+  valid 3 D = true /\
+  legacy_aggregate_dendrogram D 2 true = Ok ([(1, 0, 2%Q, 3)], Some [3; 2]) /\
+  legacy_aggregate_dendrogram D 3 true = Err IndexError /\
+  legacy_aggregate_dendrogram D 1 true = Ok ([], Some []) /\
+  aggregate_dendrogram D 2 true = Ok ([(1, 0, 2%Q, 3)], Some [1; 2]) /\
+  aggregate_dendrogram D 3 true = Ok ([(0, 1, 1%Q, 2); (3, 2, 2%Q, 3)], Some [1; 1; 1]) /\
+  aggregate_dendrogram D 1 true = Ok ([], Some [3]).
+Proof. vm_compute. repeat split; reflexivity. Qed.
+Print Assumptions legacy_aggregate_counts_refuted.
 
 (** 4. cut_balanced never returns a cluster larger than max_cluster_size. *)
 Theorem cut_balanced_cap argsort n D m sort ret labels od :
